@@ -639,6 +639,9 @@ class Fn:
             if ctx.ret is None:
                 raise Unsupported("return inside an expression")
             return ctx.ret(self.ex(e[1], env) if e[1] is not None else "tt")
+        if k == "if" and e[3] is None and e[1][0] == "mcall" and e[1][2] == "is_err" and e[1][1][0] == "macro" and e[1][1][1] == "write" \
+                and self.spec.get("format_bytes") and ctx.val is None:
+            return self.stmts([("expr", e, False)], None, env, ctx)
         if k == "if":
             els = e[3]
             if els is None:
@@ -874,6 +877,10 @@ class Fn:
                         and n[1][1][2] == "entry" and n[1][1][1][0] == "path" and len(n[1][1][1][1]) == 1 and self.spec.get("iterators"):
                     if n[1][1][1][1][0] not in out:
                         out.append(n[1][1][1][1][0])
+                if n and n[0] == "mcall" and len(n) == 4 and n[2] == "is_err" and n[1][0] == "macro" and n[1][1] == "write" and n[1][2] and n[1][2][0][0] == "id" \
+                        and self.spec.get("format_bytes"):
+                    if n[1][2][0][1] not in out:
+                        out.append(n[1][2][0][1])
                 if n and n[0] == "let" and len(n) == 5 and n[1] == ("pwild",) and n[3] is not None and n[3][0] == "macro" and n[3][1] == "write" \
                         and n[3][2] and n[3][2][0][0] == "id" and self.spec.get("format_bytes"):
                     if n[3][2][0][1] not in out:
@@ -922,7 +929,18 @@ class Fn:
                 return True
             if n[0] == "for" and n[3][2] is None and all(print_only(x) for x in n[3][1]):
                 return True
-            if n[0] == "expr" and n[1][0] == "if" and n[1][2][2] is None and all(print_only(x) for x in n[1][2][1]) \
+            def pure_cond(c):
+                """no macro, no function call, only a few known-pure methods: skipping the `if` cannot skip an effect"""
+                if isinstance(c, tuple):
+                    if c and c[0] in ("macro", "call", "try", "closure", "assign"):
+                        return False
+                    if c and c[0] == "mcall" and c[2] not in ("is_empty", "len", "is_some", "is_none", "contains_key"):
+                        return False
+                    return all(pure_cond(x) for x in c)
+                if isinstance(c, list):
+                    return all(pure_cond(x) for x in c)
+                return True
+            if n[0] == "expr" and n[1][0] == "if" and pure_cond(n[1][1]) and n[1][2][2] is None and all(print_only(x) for x in n[1][2][1]) \
                     and (n[1][3] is None or (n[1][3][0] == "block" and n[1][3][2] is None and all(print_only(x) for x in n[1][3][1]))):
                 return True
             return False
@@ -953,6 +971,11 @@ class Fn:
                 and s[1][1][1][2] == "entry" and s[1][1][1][1][0] == "path" and len(s[1][1][1][1][1]) == 1 and self.spec.get("iterators"):
             mv = s[1][1][1][1][1][0]
             return "let %s := al_push %s %s %s in %s" % (self.var(mv), self.ex(s[1][1][1][3][0], env), self.ex(s[1][3][0], env), self.var(mv), after(env))
+        if k == "expr" and s[1][0] == "if" and s[1][3] is None and s[1][1][0] == "mcall" and s[1][1][2] == "is_err" and s[1][1][1][0] == "macro" \
+                and s[1][1][1][1] == "write" and self.spec.get("format_bytes") and all(x[0] == "expr" and x[1][0] == "macro" and x[1][1] in ("println", "eprintln") for x in s[1][2][1]) \
+                and s[1][2][2] is None:
+            # `if write!(buf, ..).is_err() { eprintln!(..) }`: writing to a String cannot fail; the statement is the write
+            return self.stmts([("let", ("pwild",), None, s[1][1][1], None)] + rest, tl, env, ctx)
         if k == "let" and s[1][0] == "pwild" and s[3] is not None and s[3][0] == "macro" and s[3][1] == "write" and self.spec.get("format_bytes") \
                 and len(s[3][2]) >= 3 and s[3][2][0][0] == "id" and s[3][2][1] == ("op", ",") and s[3][2][0][1] in env:
             tgt = s[3][2][0][1]
@@ -2548,6 +2571,58 @@ def functions():
         return "Definition g_push_command (remote_path : list Z) (file_size : Z) (mtime : option Z) : list Z :=\n  %s." % text
     out.append(("push_command", "src/bin/copia/transfer.rs transfer_file_to_remote (the remote command)", None, t_push_command))
 
+    def cmd_of(path, fname, let_names, starts, gname, gparams, env):
+        """the `let`s named and the one format!(..) whose text starts with `starts`, as a byte list"""
+        def go():
+            src = read(path)
+            params, ret, body = R.find_fn(src, fname, None)
+            lets = [st for st in body[1] if st[0] == "let" and st[1][0] == "pbind" and st[1][1] in let_names]
+            if [st[1][1] for st in lets] != list(let_names):
+                raise Unsupported("%s: expected the statements %s in this order" % (fname, ", ".join("`let %s`" % n for n in let_names)))
+            cmds = []
+            def walk(n):
+                if isinstance(n, tuple) and len(n) == 3 and n[0] == "macro" and n[1] == "format" and n[2] and n[2][0][0] == "str" and n[2][0][1].lstrip('"').startswith(starts):
+                    cmds.append(n)
+                if isinstance(n, (list, tuple)):
+                    for c in n:
+                        walk(c)
+            walk(body)
+            if len(cmds) != 1:
+                raise Unsupported("%s: the remote command `%s..` was not found" % (fname, starts))
+            spec = dict(format_bytes={"02x": "hex2 {0}"}, format_int="dec_signed {0}")
+            fn = Fn(spec)
+            text = fn.block(("block", lets, cmds[0]), env, Ctx(val=(lambda x: x), ret=(lambda x: x), fall=None))
+            return "Definition %s %s : list Z :=\n  %s." % (gname, gparams, text)
+        return go
+    out.append(("pull_command", "src/bin/copia/dir_sync.rs transfer_file_from_remote (the remote command)", None,
+                cmd_of("src/bin/copia/dir_sync.rs", "transfer_file_from_remote", ("escaped",), "cat $", "g_pull_command", "(remote_path : list Z)", {"remote_path": "str"})))
+    out.append(("list_command", "src/bin/copia/meta.rs discover_remote_with_meta (the remote command)", None,
+                cmd_of("src/bin/copia/meta.rs", "discover_remote_with_meta", ("escaped",), "cd $", "g_list_command", "(remote_root : list Z)", {"remote_root": "str"})))
+
+    def t_mkdir_list():
+        src = read("src/bin/copia/transfer.rs")
+        params, ret, body = R.find_fn(src, "create_remote_dirs", None)
+        if [n for n, _ in params] != ["host", "remote_root", "dirs"]:
+            raise Unsupported("signature of create_remote_dirs is %s" % params)
+        ss = [st for st in body[1] if (st[0] == "let" and st[1] == ("pbind", "dir_list")) or (st[0] == "for" and st[2] == ("path", ["dirs"]))]
+        if len(ss) != 2 or ss[0][0] != "let" or ss[1][0] != "for":
+            raise Unsupported("create_remote_dirs: expected `let mut dir_list = format!(..);` and one `for dir in dirs { .. }`")
+        cmd = []
+        def walk(n):
+            if isinstance(n, tuple) and n and n[0] == "str" and "mkdir" in n[1]:
+                cmd.append(n[1])
+            if isinstance(n, (list, tuple)):
+                for c in n:
+                    walk(c)
+        walk(body)
+        if cmd != ["xargs -0 mkdir -p"]:
+            raise Unsupported("create_remote_dirs: the remote command is no longer `xargs -0 mkdir -p` (%s)" % cmd)
+        spec = dict(format_bytes={"02x": "hex2 {0}"}, format_int="dec_signed {0}", prints_ignored=True, calls={".display": ("{0}", "str")})
+        fn = Fn(spec)
+        text = fn.block(("block", ss, ("path", ["dir_list"])), {"remote_root": "str", "dirs": "Vec<PathBuf>"}, Ctx(val=(lambda x: x), ret=(lambda x: x), fall=None))
+        return "Definition g_mkdir_list (remote_root : list Z) (dirs : list (list Z)) : list Z :=\n  %s." % text
+    out.append(("mkdir_list", "src/bin/copia/transfer.rs create_remote_dirs (the list sent to `xargs -0 mkdir -p`)", None, t_mkdir_list))
+
     def t_run_remote():
         src = read("src/bin/copia/incremental.rs")
         params, ret, body = R.find_fn(src, "run_remote", None)
@@ -2647,7 +2722,7 @@ GROUPS = {
     "ListingParse": ("Model.Glob Model.Plan Model.Listing", "listingparse", ["parse_listing"]),
     "OneWayPrint": ("Model.Glob Model.Plan Model.OneWay", "onewayprint", ["print_plan", "report"]),
     "PushDelete": ("Model.Glob Model.Plan Model.Listing Model.ShellQuote", "plainz", ["push_delete_request"]),
-    "PushCommand": ("Model.Glob Model.Plan Model.Listing Model.ShellQuote", "pushcommand", ["push_command"]),
+    "PushCommand": ("Model.Glob Model.Plan Model.Listing Model.ShellQuote", "pushcommand", ["push_command", "pull_command", "list_command", "mkdir_list"]),
     "RemoteRun": ("Model.Glob Model.Plan Model.OneWay", "remoterun", ["run_remote"]),
     "Archive": ("Model.Archive", "archive", ["archive_load"]),
     "Plan": ("Model.Glob Model.Plan", False, ["needs_transfer", "glob_match", "is_excluded", "build_plan"]),
